@@ -6,19 +6,24 @@ import datetime as dt
 
 ID = "C15"
 BACKENDS = ("py", "rs")
-GEN_MODULES = ("Tables", "Helpers", "RsHelpers", "LocalTime")
-MIN_THEOREMS = 26
+GEN_MODULES = ("Tables", "Helpers", "RsHelpers", "LocalTime", "Getters")
+MIN_THEOREMS = 47
 RULE = ("ops: isleap/islong/diy for every year 1..9999; weekday/getters on dates (quick: every date of 12 pattern years, "
         "every month start/end of every year, random dates; thorough: all 3,652,059 dates); localtime on day boundaries "
         "-1s/0/+1s and random seconds x offsets -86399..86399 over years 1..9999, plus the chunk boundaries of the algorithm (every century "
         "and 400-year start, sampled/all year and month starts) x offsets of either sign with the UTC instant and the local reading on "
-        "either side of the boundary. non-trivial = distinct op whose year is a "
+        "either side of the boundary; the small derived methods next to the getters (Gen/Getters.lean): gdcl/gdavg Date.closest/farthest/"
+        "average on random triples/pairs of dates incl. equally distant candidates and odd negative differences, gxcl/gxavg "
+        "DateTime.closest/farthest/average on 0..11 candidates at fixed offsets incl. ties and duplicates, gwsa week_starts_at/"
+        "week_ends_at(-3..10) (all model-compared), gdrel/gxoff/gxrel is_same_day/is_anniversary/is_birthday/age/is_future/is_past, "
+        "offset/offset_hours/is_utc/is_dst/timezone_name/float_timestamp, DateTime.is_same_day/is_anniversary/is_long_year (oracle only). non-trivial = distinct op whose year is a "
         "leap/century/long year or whose date is a month/year boundary or whose timestamp is within 1 s of a day boundary "
         "or negative")
 EXHAUSTIVE = {"quick": False, "thorough": True}
 TRUSTED = [
     "Gen.Helpers/Gen.Tables are regenerated from _helpers.py, date.py, constants.py, rust/src/constants.rs each run",
     "Gen/RsHelpers.lean is regenerated from rust/src/helpers.rs (closed-form helpers) by tools/gen_rust.py each run; Gen/LocalTime.lean is regenerated statement by statement from _helpers.py::local_time and rust/src/helpers.rs::local_time by tools/gen_localtime.py each run (trusted reading: integer casts/.into()/.try_into().unwrap() = identity on unbounded Int, unix_time.floor()/math.floor = the integer argument, microsecond passed through, loops cut at 64 iterations with the cut proved immaterial); Model/LocalTime.lean is the hand model, tied to it by Props.C15.local_time_source_eq_model for all integers; the driver answers localtime requests from the regenerated definitions",
+    "Gen/Getters.lean is regenerated statement by statement from date.py / datetime.py / day.py / helpers.py (week_starts_at, week_ends_at) / mixins/default.py by tools/gen_getters.py each run (the getters of the property, WeekDay, closest/farthest/average, age, is_* and the string wrappers; unlisted callees such as diff, first_of, _first_of_month, set, replace, today, _to_string are inlined; the standard library and other pendulum modules are the parameter record Ext, linked to Model/Cal.lean by the explicit hypotheses StdOk/DateOk/DtOk of the *_source_eq_model theorems, shown satisfiable by GettersGen.refExt; trusted reading: a / n is the exact rational, math.ceil(a / n) = -((-a) // n), int(a / n) truncates, a timedelta is its microseconds); Drv/C15.lean::getters is the hand model, tied to it by Props.C15.getters_source_eq_driver",
     "reference calendar Model/Cal.lean = CPython datetime algorithms; oracle = CPython datetime/calendar",
 ]
 ASSUMPTIONS = [
@@ -107,10 +112,58 @@ def gen_ops(rng, tier):
             t2 = rng.choice((t, -abs(t), (t // 86400) * 86400 - 1, (t // 86400) * 86400, -1, 0, -86400, -86401))
             if MIN_TS + 86400 <= t2 <= MAX_TS - 86400:
                 yield ("localtime", t2, rng.choice((0, off)), rng.randint(1, 3))
+    yield from _getter_ops(rng, tier)
+
+
+US_DAY = 86400 * 10**6
+
+
+def _getter_ops(rng, tier):
+    """the small derived methods next to the getters (Gen/Getters.lean): closest / farthest / average of Date and DateTime,
+    week_starts_at / week_ends_at (model-compared), is_same_day / is_anniversary / is_birthday / age / offsets (oracle only)"""
+    n = 1500 if tier == "quick" else 20000
+
+    def clamp(o):
+        return min(3652059, max(1, o))
+    for v in range(-3, 11):
+        yield ("gwsa", 0, v)
+        yield ("gwsa", 1, v)
+    for _ in range(n):
+        o = rng.randint(1, 3652059)
+        span = rng.choice((3, 40, 400, 40000))
+        o1, o2 = clamp(o + rng.randint(-span, span)), clamp(o + rng.randint(-span, span))
+        if rng.random() < 0.3:
+            o2 = clamp(2 * o - o1)                       # both candidates equally far
+        yield ("gdcl", o, o1, o2)
+        yield ("gdavg", o, o1)
+        yield ("gdrel", o, rng.choice((o1, o, clamp(o + 365 * rng.randint(-3, 3)), clamp(o + 366))))
+        t = (rng.randint(800, 3651000) - 719163) * US_DAY + rng.randrange(US_DAY)
+        scale = rng.choice((5, 10**6, 3600 * 10**6, 40 * US_DAY))
+        cands = []
+        for _k in range(rng.randint(0 if rng.random() < 0.05 else 1, 5)):
+            dlt = rng.randint(-scale, scale)
+            cands.append((t + dlt, rng.choice((0, 0, 3600, -18000, 19800))))
+            if rng.random() < 0.35:
+                cands.append((t - dlt, rng.choice((0, 3600))))      # a tie in distance, on the other side
+            if rng.random() < 0.1:
+                cands.append(cands[0])
+        rng.shuffle(cands)
+        yield ("gxcl", rng.randint(0, 1), t, tuple(cands))
+        t2 = t + rng.randint(-scale, scale)
+        yield ("gxavg", t, t2, rng.choice((0, 3600, -18000)))
+        yield ("gxoff", rng.choice((None, 0, 0, 3600, -3600, 19800, -34200, 50400, -43200)), t)
+        yield ("gxrel", t, t + rng.choice((0, rng.randint(-US_DAY, US_DAY), 365 * US_DAY, 366 * US_DAY, rng.randint(-scale, scale))),
+               rng.choice((0, 3600, -18000, 50400)))
 
 
 def line(op, backend):
     k = op[0]
+    if k in ("gdrel", "gxoff", "gxrel"):
+        return None                      # oracle only
+    if k == "gxcl":
+        return " ".join(["gxcl", str(op[1]), str(op[2])] + [str(c[0]) for c in op[3]])
+    if k == "gxavg":
+        return "gxavg %d %d" % (op[1], op[2])
     if k in ("isleap", "islong", "diy", "weekday", "localtime"):
         return " ".join([k, backend] + [str(x) for x in op[1:3 if k == "localtime" else None]])
     return " ".join(str(x) for x in op)
@@ -151,7 +204,117 @@ def impl(op, backend):
         if a != b:
             return "err DateTimeGettersDiffer %r %r" % (a, b)
         return "ok " + " ".join(str(x) for x in a)
+    if k[0] == "g":
+        return _getter_impl(op)
     raise ValueError(k)
+
+
+_UTC = dt.timezone.utc
+_EPOCH_UTC = dt.datetime(1970, 1, 1, tzinfo=_UTC)
+
+
+def _native(t, off=0):
+    """the aware native datetime of the instant t (µs) at a fixed offset"""
+    tz = dt.timezone(dt.timedelta(seconds=off)) if off else _UTC
+    return (_EPOCH_UTC + dt.timedelta(microseconds=t)).astimezone(tz)
+
+
+def _us(x):
+    """instant of an aware datetime in µs, through native arithmetic only (pendulum's own `-` goes through floats)"""
+    n = dt.datetime(x.year, x.month, x.day, x.hour, x.minute, x.second, x.microsecond) - x.utcoffset()
+    return (n - dt.datetime(1970, 1, 1)) // dt.timedelta(microseconds=1)
+
+
+def _getter_impl(op):
+    import pendulum
+    k = op[0]
+    Date, DateTime = _H["Date"], _H["DateTime"]
+    try:
+        if k == "gwsa":
+            try:
+                (pendulum.week_ends_at if op[1] else pendulum.week_starts_at)(op[2])
+                return "ok %d" % int(pendulum._WEEK_ENDS_AT if op[1] else pendulum._WEEK_STARTS_AT)
+            finally:
+                pendulum._WEEK_STARTS_AT, pendulum._WEEK_ENDS_AT = pendulum.MONDAY, pendulum.SUNDAY
+        if k == "gdcl":
+            a, b, c = (Date.fromordinal(o) for o in op[1:4])
+            r1, r2 = a.closest(b, c), a.farthest(b, c)
+            if type(r1) is not Date or type(r2) is not Date:
+                return "err NotADate"
+            return "ok %d %d" % (r1.toordinal(), r2.toordinal())
+        if k == "gdavg":
+            a, b = Date.fromordinal(op[1]), Date.fromordinal(op[2])
+            return "ok %d" % a.average(b).toordinal()
+        if k == "gdrel":
+            a, b = Date.fromordinal(op[1]), dt.date.fromordinal(op[2])
+            return "ok %d %d %d %d %d %d" % (a.is_same_day(b), a.is_anniversary(b), a.is_birthday(b), a.age,
+                                             a.is_future(), a.is_past())
+        if k == "gxcl":
+            a = pendulum.instance(_native(op[2]))
+            cs = [_native(t, off) for t, off in op[3]]
+            r = a.farthest(*cs) if op[1] else a.closest(*cs)
+            if type(r) is not DateTime:
+                return "err NotADateTime"
+            return "ok %d" % _us(r)
+        if k == "gxavg":
+            a = pendulum.instance(_native(op[1]))
+            return "ok %d" % _us(a.average(_native(op[2], op[3])))
+        if k == "gxoff":
+            x = _native(op[2], op[1] or 0)
+            a = pendulum.instance(x) if op[1] is not None else pendulum.naive(x.year, x.month, x.day, x.hour, x.minute, x.second, x.microsecond)
+            return "ok %r %r %r %d %d %r %r" % (a.offset, a.get_offset(), a.offset_hours, a.is_utc(), a.is_dst(),
+                                                 a.timezone_name, a.float_timestamp if op[1] is not None else None)
+        if k == "gxrel":
+            a = pendulum.instance(_native(op[1]))
+            b = _native(op[2], op[3])
+            return "ok %d %d %d %r" % (a.is_same_day(b), a.is_anniversary(b), a.is_long_year(), a.date().isoformat())
+    except Exception as e:  # noqa: BLE001
+        return "err " + type(e).__name__
+    raise ValueError(k)
+
+
+def _full_years(a, b):
+    """signed number of full years from date a to date b"""
+    if a <= b:
+        return b.year - a.year - ((b.month, b.day) < (a.month, a.day))
+    return -(a.year - b.year - ((a.month, a.day) < (b.month, b.day)))
+
+
+def _getter_oracle(op):
+    """the documented behaviour, from the standard library only"""
+    k = op[0]
+    if k == "gwsa":
+        return "ok %d" % op[2] if 0 <= op[2] <= 6 else "err ValueError"
+    if k == "gdcl":
+        o, o1, o2 = op[1:4]
+        return "ok %d %d" % (o1 if abs(o1 - o) < abs(o2 - o) else o2, o1 if abs(o1 - o) > abs(o2 - o) else o2)
+    if k == "gdavg":
+        d = op[2] - op[1]
+        return "ok %d" % (op[1] + (abs(d) // 2) * (1 if d >= 0 else -1))
+    if k == "gdrel":
+        a, b = dt.date.fromordinal(op[1]), dt.date.fromordinal(op[2])
+        today = dt.date.today()
+        ann = (a.month, a.day) == (b.month, b.day)
+        return "ok %d %d %d %d %d %d" % (a == b, ann, ann, _full_years(a, today), a > today, a < today)
+    if k == "gxcl":
+        if not op[3]:
+            return "err ValueError"
+        t = op[2]
+        # the documented "closest / farthest": smallest / largest elapsed time; among equals the first argument stays
+        return "ok %d" % (max if op[1] else min)((c for c, _ in op[3]), key=lambda c: abs(t - c))
+    if k == "gxavg":
+        return "ok %d" % (op[1] + (op[2] - op[1]) // 2)
+    if k == "gxoff":
+        off = op[1]
+        if off is None:
+            return "ok None None None 0 1 None None"
+        name = "UTC" if off == 0 else "%s%02d:%02d" % ("+" if off > 0 else "-", abs(off) // 3600, abs(off) % 3600 // 60)
+        return "ok %r %r %r %d %d %r %r" % (off, off, off / 3600, off == 0, 0, name, _native(op[2]).timestamp())
+    if k == "gxrel":
+        a, b = _native(op[1]), _native(op[2], op[3])
+        return "ok %d %d %d %r" % (a.date() == b.date(), (a.month, a.day) == (b.month, b.day),
+                                   _weeks_in_iso_year(a.year) == 53, a.date().isoformat())
+    return None
 
 
 def _weeks_in_iso_year(y):
@@ -181,6 +344,10 @@ def oracle(op, out, backend):
         exp = "ok %d %d %d %d %d %d %d %d" % (
             d.weekday(), d.timetuple().tm_yday, d.isocalendar()[1], wom, calendar.monthrange(op[1], op[2])[1],
             (op[2] - 1) // 3 + 1, int(calendar.isleap(op[1])), int(_weeks_in_iso_year(op[1]) == 53))
+    elif k[0] == "g":
+        exp = _getter_oracle(op)
+        if exp is None:
+            return None
     else:
         return None
     if out != exp:
@@ -204,6 +371,19 @@ def tag(op, out):
         if d == 1 or d >= 28:
             return k + ":month-boundary"
         return k + ":mid-month"
+    if k == "gdcl":
+        return k + (":tie" if abs(op[2] - op[1]) == abs(op[3] - op[1]) else ":plain")
+    if k == "gdavg":
+        return k + (":odd-negative" if (op[2] - op[1]) % 2 and op[2] < op[1] else ":odd" if (op[2] - op[1]) % 2 else ":plain")
+    if k == "gxcl":
+        ds = [abs(op[2] - c) for c, _ in op[3]]
+        return k + (":empty" if not ds else ":tie" if ds.count(min(ds)) > 1 or ds.count(max(ds)) > 1 else ":plain")
+    if k == "gxavg":
+        return k + (":odd-negative" if (op[2] - op[1]) % 2 and op[2] < op[1] else ":plain")
+    if k == "gwsa":
+        return k + (":valid" if out.startswith("ok") else ":invalid")
+    if k in ("gdrel", "gxoff", "gxrel"):
+        return k
     if k == "localtime":
         t = op[1] + op[2]
         if len(op) == 4:
@@ -216,5 +396,6 @@ def tag(op, out):
     return k
 
 
-TRIVIAL_TAGS = ("isleap:plain", "islong:plain", "diy:plain", "weekday:mid-month", "getters:mid-month", "localtime:plain")
+TRIVIAL_TAGS = ("isleap:plain", "islong:plain", "diy:plain", "weekday:mid-month", "getters:mid-month", "localtime:plain",
+                "gdcl:plain", "gdavg:plain", "gxcl:plain", "gxavg:plain")
 MATCHERS = {}
